@@ -214,6 +214,10 @@ func handlePanic(t *T, recovered any) {
 	err, isError := recovered.(error)
 	switch {
 	case isError && err == errFailNow: //nolint:errorlint // the sentinel FailNow panics with, not any error that claims to match it
+		// FailNow has marked the handle it was called on. That may be another handle than the one whose
+		// function was stopped here (an iteration asserting on the handle the scenario was set up with):
+		// the function recovered here has failed all the same.
+		t.Fail()
 		return
 	case isError:
 		stack := debug.Stack()
